@@ -595,6 +595,12 @@ theorem idsRows_ok (d : Decor) (t : TableSpec) (hw : t.Wf) :
   · intro _
     simp only [idsRows]
     cases t.hasLabelRow <;> cases t.hasValues <;> simp <;> omega
+  · intro _
+    simp only [idsRows]
+    cases t.hasLabelRow <;> simp
+  · intro _ j _
+    simp only [idsRows]
+    cases t.hasLabelRow <;> cases t.hasValues <;> simp <;> omega
 
 theorem idsCols_ok (d : Decor) (t : TableSpec) :
     (idsCols d t).Ok t.inputs.length t.outputs.length := by
@@ -603,6 +609,12 @@ theorem idsCols_ok (d : Decor) (t : TableSpec) :
     simp only [idsCols]
     omega
   · intro _
+    simp only [idsCols]
+    omega
+  · intro _
+    simp only [idsCols]
+    omega
+  · intro _ j _
     simp only [idsCols]
     omega
 
